@@ -604,9 +604,35 @@ def build_shape(shape, n):
     return Universe(vertices=vs)
 
 
+def _rejected_dumps():
+    """
+    Serialisations that are rejected (TypeError: cannot pickle a generator), of small graphs: one with the
+    unpicklable value on a vertex, one with it in the body of a class that is pickled by value (a class
+    defined inside a function).  A failed dumps must not spoil a later one.
+    """
+    def gen():
+        yield 1
+
+    class Local(Vertex):                 # not importable: dill pickles it by value
+        serials = gen()
+
+        def __init__(self, **kw):
+            super().__init__(**kw)
+
+    plain = Vertex(attributes={"i": 0})
+    plain.stream = gen()
+    for obj in (plain, Local(attributes={"i": 1})):
+        for proto in (2, 4):
+            try:
+                nrpickler.dumps(obj, protocol=proto)
+            except Exception:  # noqa: BLE001
+                pass
+
+
 def ladder_case(shape, n, limit, protocol):
     old = sys.getrecursionlimit()
     root = build_shape(shape, n)
+    _rejected_dumps()
     try:
         if limit:
             sys.setrecursionlimit(limit)
